@@ -387,8 +387,94 @@ def nontrivial(case, real, st):
     return n >= 3 and ok >= 1 and failed >= 1
 
 
+def interrupted_end_case(ctx, i):
+    """Model-free: the write of an action's end message is interrupted - a later destination raises a BaseException
+    (KeyboardInterrupt ...), which eliot lets through - after an earlier destination already has the message; the
+    application's clean-up then finishes the action again (`finally: a.finish()`, or a second `with`-less finish with the
+    exception).  The earlier destination must still see exactly one end message per action, and the first one stands."""
+    import contextvars
+    import eliot
+    from eliot import _output
+
+    rng = ctx.rng("interrupted-end:%d" % i)
+    dst = _output.Logger._destinations
+    saved = (dst._destinations, dst._any_added, dst._globalFields)
+    dst.__init__()
+    good, calls = [], [0]
+    fail_at = set(rng.sample(range(14), rng.randint(1, 5)))
+
+    def bad(message):
+        k = calls[0]
+        calls[0] += 1
+        if k in fail_at:
+            raise rng.choice([KeyboardInterrupt, SystemExit, GeneratorExit])("interrupted while writing")
+
+    def block(depth):
+        kind = rng.random()
+        a = eliot.start_action(action_type="i:act%d" % depth)
+        exc = None
+        try:
+            if kind < 0.5:
+                with a:
+                    body(depth)
+            elif kind < 0.75:
+                with a.context():
+                    body(depth)
+                a.finish()
+            else:
+                a.run(body, depth)
+                a.finish()
+        except BaseException as e:  # noqa: the interruption or the body's own exception
+            exc = e
+        finally:
+            # the application's clean-up
+            try:
+                if rng.random() < 0.5:
+                    a.finish()
+                else:
+                    a.finish(exc)
+            except BaseException:  # noqa
+                pass
+
+    def body(depth):
+        for _ in range(rng.randint(0, 2)):
+            r = rng.random()
+            if r < 0.4 and depth < 3:
+                block(depth + 1)
+            elif r < 0.8:
+                eliot.log_message("i:msg", d=depth)
+            else:
+                raise ValueError("body")
+
+    def main():
+        eliot.add_destinations(good.append, bad)
+        for _ in range(rng.randint(1, 3)):
+            block(0)
+
+    try:
+        contextvars.Context().run(main)
+    except BaseException:  # noqa
+        pass
+    finally:
+        dst._destinations, dst._any_added, dst._globalFields = saved
+    ends = {}
+    for m in good:
+        if m.get("action_status") in ("succeeded", "failed"):
+            ends.setdefault((m["task_uuid"], tuple(m["task_level"][:-1])), []).append(m["action_status"])
+    bad_ends = {k: v for k, v in ends.items() if len(v) != 1}
+    reached = sum(1 for k in fail_at if k < calls[0])
+    return (["action at level %s has end messages %s at a destination that accepted everything" % (list(k[1]), v)
+             for k, v in sorted(bad_ends.items(), key=str)][:1], reached)
+
+
 def run(ctx):
     import eliot
+    for i in range(ctx.budget(150, 4000)):
+        problems, reached = interrupted_end_case(ctx, i)
+        ctx.case({"interrupted-end": i, "seed": ctx.seed}, nontrivial=reached > 0, tags=["interrupted-end"], sample=(i < 2))
+        if problems:
+            ctx.violation("interrupted end message: " + problems[0], {"interrupted-end": i, "seed": ctx.seed})
+            break
 
     ctx.extra["eliot_imported_from"] = getattr(eliot, "__file__", "?")
     with Tap() as tap:
@@ -398,6 +484,12 @@ def run(ctx):
 
 def replay(ctx, obj):
     case = obj["case"]
+    if "interrupted-end" in case:
+        problems, reached = interrupted_end_case(ctx, case["interrupted-end"])
+        print(problems, reached)
+        if problems:
+            ctx.violation("interrupted end message: " + problems[0], case)
+        return
     with Tap() as tap:
         real, rt = sysinterp.run_case(case)
         print(real["outcome"], len(real["offered"]), "requests:", len(tap.requests))
